@@ -426,7 +426,7 @@ pub fn scale_c02<C: NatCtx>(v: &mut Env<C>) {
     let ctx = v.ctx.clone();
     let tok = v.tok.clone();
     let sk = v.rnd_exp();
-    for nn in if quick { vec![4097usize, 70001] } else { vec![4097, 16385, 70001, 200000] } {
+    for nn in if quick { vec![4097usize, 70001, 131073] } else { vec![4097, 16385, 70001, 131073, 262145, 1048577] } {
         let s = setup(v, &sk, 1, b"scale2");
         let sh = Shuffler::new(&s.pk, &s.gens, &ctx);
         strand::verif_hooks::load_exp_tape(vec![]);
@@ -497,7 +497,7 @@ pub fn run_c03<C: NatCtx>(v: &mut Env<C>) {
     if small && v.p == big(23) {
         let ctx = v.ctx.clone();
         let tok = v.tok.clone();
-        for nn in if C::kind() == 'M' { vec![4097usize] } else if quick { vec![4097usize, 16385] } else { vec![4097, 16385, 65537, 131073] } {
+        for nn in if C::kind() == 'M' { vec![4097usize] } else if quick { vec![4097usize, 16385, 131073] } else { vec![4097, 16385, 65537, 131073, 262145, 1048577] } {
             let s = setup(v, &sk, nn, b"scale");
             let sh = Shuffler::new(&s.pk, &s.gens, &ctx);
             strand::verif_hooks::load_exp_tape(vec![]);
